@@ -77,7 +77,7 @@ func runC16(cfg *vh.Config) error {
 
 	// ------------------------------------------------------------ stream 1+2: generated packages, plain and mutated
 	rp := cfg.R.Fork("packages")
-	nPkg := cfg.Scale(70, 1500)
+	nPkg := cfg.Scale(70, 1200)
 	nAwk := cfg.Scale(10, 150)
 	type pk struct {
 		p   *gPackage
@@ -91,7 +91,7 @@ func runC16(cfg *vh.Config) error {
 		pks = append(pks, pk{p: p})
 		jobs = append(jobs, &Job{ID: len(jobs), Kind: "j5s", Pkg: p.Pkg, Files: map[string]string{strings.ReplaceAll(p.Pkg, ".", "/") + "/a.j5s": p.text()}})
 	}
-	nMut := cfg.Scale(45, 600)
+	nMut := cfg.Scale(45, 500)
 	for i := 0; i < nMut; i++ {
 		p := genPackage(rp, false)
 		sv := p.Services[0]
@@ -176,11 +176,11 @@ func runC16(cfg *vh.Config) error {
 			continue
 		}
 		sk, ck, wk := stageKind(r.status("source")), stageKind(r.status("client")), stageKind(r.status("swagger"))
-		term := fmt.Sprintf("CChainE %s %s\n    %d %s\n    %d %s %s %d", coqAnns(r.Img), coqImg(r.Img), sk, coqSrcObs(r.Src), ck, coqMethodObs(r.Methods), coqKeys(r.Schemas), wk)
+		term := fmt.Sprintf("CChainE %s %s\n    %d %s\n    %d %s %s %s %d", coqAnns(r.Img), coqImg(r.Img), sk, coqSrcObs(r.Src), ck, coqMethodObs(r.Methods), coqKeys(r.Schemas), coqEntObs(r.EntObs), wk)
 		addCase(stream, term, input, map[string]any{"stages": r.Stages, "methods": r.Methods, "schemas": r.Schemas})
 		if pks[i].mut == nil && r.status("source") == "ok" {
-			decl, extra := coqDeclPackage(p)
-			compileCases = append(compileCases, compileRec{term: fmt.Sprintf("CCompile %s %s\n    %s", decl, vh.BoolTerm(extra), coqImg(r.Img)), input: input})
+			decl, extra := coqDeclPackage(p, r.Img)
+			compileCases = append(compileCases, compileRec{term: fmt.Sprintf("CCompile %s %s %s\n    %s", decl, vh.BoolTerm(extra), vh.BoolTerm(p.Awkward || p.FlatHost != ""), coqImg(r.Img)), input: input})
 		}
 		if pks[i].mut == nil {
 			res.Sample(map[string]any{"stream": stream, "package": p.Pkg, "services": len(p.Services), "schemas": len(p.Schemas), "entity": p.Entity != nil, "stages_ok": bad == nil}, 3)
@@ -296,11 +296,11 @@ func runC16(cfg *vh.Config) error {
 	}
 	// compile stream: its own shards
 	cc := &vh.CasesFile{
-		Header: "From Coq Require Import String List NArith.\nFrom J5V.lib Require Import Outcome.\nFrom J5V.model Require Import Pipeline PipelineCompile PipelineCompileCorr.",
+		Header: "From Coq Require Import String List NArith.\nFrom J5V.lib Require Import Outcome.\nFrom J5V.model Require Import Pipeline PipelineCompile PipelineValid PipelineCompileCorr.",
 		Type:   "c16compile",
 		Check:  "c16_compile_check",
 	}
-	const perC = 60
+	const perC = 20
 	for i, c := range compileCases {
 		caseNo++
 		res.Count("compile-image")
